@@ -323,12 +323,29 @@ Record hscript := {
   hs_store : option nat;                  (* Some n: the store fails after n events *)
   hs_att : N;
   hs_local_fail : bool;                   (* the look-up of the named key file fails transiently *)
+  hs_reissue : bool;                      (* the host hands out its last key again while that key is not latched
+                                             (as the repository's test_mock::server_mock does) *)
 }.
+
+Fixpoint guid_pos (g : bytes) (ks : list key) : nat :=
+  match ks with
+  | [] => O
+  | k :: t => if beq (key_guid k) g then O else S (guid_pos g t)
+  end.
+
+(* the key the host hands out next: after its last one in [hs_keys], or that one again *)
+Definition next_key (hs : hscript) (h : host) : option key :=
+  match h_issued h with
+  | [] => nth_error (hs_keys hs) 0
+  | k0 :: _ =>
+      if hs_reissue hs && negb (opt_beq (h_latched h) (Some (key_guid k0))) then Some k0
+      else nth_error (hs_keys hs) (S (guid_pos (key_guid k0) (hs_keys hs)))
+  end.
 
 Definition faults_of (hs : hscript) (st : wstate) : faults :=
   let g := match hs_guid hs with Some g => g | None => h_latched (snd st) end in
   {| f_status := if hs_status_ok hs then StatusDoc (hs_doc hs g) else StatusErr;
-     f_acquire := match nth_error (hs_keys hs) (length (h_issued (snd st))) with
+     f_acquire := match next_key hs (snd st) with
                   | Some k => if hs_acq hs =? 0 then AcqOk k else if hs_acq hs =? 1 then AcqLost k else AcqErr
                   | None => AcqErr
                   end;
